@@ -16,7 +16,7 @@ RULE = ("positive random spectra with UNEQUAL axis lengths 2-7 (1-4 axes; 3x3 fo
         "f3/f4 vs the documented combinations of f2 on two-population marginals; invariance of pi, theta, S, D-Tajima, pi_xy, f2, f3, f4, Fst, KING, "
         "R0, R1 under fold(fill 0); independence of all but sum/f2/f3/f4 from the two monomorphic cells; invariance of f2, Fst, pi_xy, KING, R0, R1 "
         "under swapping the populations; scale invariance of f2, f3, f4, Fst, KING, R0, R1 and linear scaling of sum, S, pi, pi_xy, theta for "
-        "c in 2^-70..2^40 (incl. factors that push the total below f64::EPSILON); monomorphic cells up to 3e15. Allowance abs 1e-9 + rel 1e-9; relations whose value is non-finite (zero denominator) are skipped, except that with one NaN entry in a polymorphic cell a statistic must stay NaN (or stay the same finite number) under fold(fill 0). "
+        "c in 2^-70..2^40 (incl. factors that push the total below f64::EPSILON, and factors that bring the total to within 1e-9 .. 1e-2 of one); monomorphic cells up to 3e15. Allowance abs 1e-9 + rel 1e-9; relations whose value is non-finite (zero denominator) are skipped, except that with one NaN entry in a polymorphic cell a statistic must stay NaN (or stay the same finite number) under fold(fill 0). "
         "Non-trivial: every relation on a spectrum with unequal axes (or 1-D); distinct = digest(spectrum, relation).")
 ASSUMPTIONS = ["relations are between outputs of the real code only; absolute correctness is C06's job"]
 FLOORS = {"quick": {"evaluations": 1500, "distinct_nontrivial": 1000, "counts": {"rel_f3_f2": 60, "rel_f4_f2": 60, "rel_fold": 500, "rel_monomorphic": 500, "rel_swap": 200, "rel_scale": 500, "C_runs": 100, "large_spectra": 100, "C_large_spectra": 30}},
@@ -73,6 +73,11 @@ def check_L(S, p):
             data = [float(int(x)) + 1 for x in data]
         wit = {"level": "L", "shape": shape, "data": GS.hexes(data)}
         c = rng.choice([2.0 ** -20, 0.001, 0.5, 3.0, 10.0 ** 6, rng.uniform(0.1, 1000), 2.0 ** -64, 2.0 ** -70, 2.0 ** 40])
+        if i % 4 == 3:
+            # a factor that makes the scaled spectrum ALMOST a frequency spectrum: its total lands within 1e-9 .. 1e-2 of one
+            delta = rng.choice([1e-9, 1e-7, 1e-6, 3e-6, 1e-5, 1e-4, 4e-4, 1e-3, 1e-2, 2e-7 * n]) * rng.choice([1, -1])
+            c = (1.0 + delta) / sum(data)
+            S.count("nearly_normalised_scalings")
         mono = list(data)
         mono[0] = rng.choice([rng.uniform(0, 1e5), 1e12 + 0.3, 3.3e15, 2.0 ** 53 + 2, 0.0])
         mono[-1] = rng.choice([rng.uniform(0, 1e5), 7e13 + 0.7, 1.1e15, 0.0])
